@@ -40,7 +40,7 @@ def violation_record(h, i, clause, extra, prop="C09"):
     op = h[i] if 0 <= i < len(h) else {}
     what = {1: "write() changed the snapshot of a caption set",
             2: "the same writer class/options on a set with the same snapshot returned different text "
-               "(same object again / fresh object / after other writes)",
+               "(same object again / fresh object / after other writes / alone in a fresh process)",
             7: "the same history gives different writer output in a process with another PYTHONHASHSEED"}.get(clause, str(clause))
     rec = {"kind": C.CLAUSES[clause], "what": "%s: op %d %s in [%s]" % (what, i, json.dumps({k: op.get(k) for k in ("op", "kind", "wopts", "kw", "w", "set")}), C.describe_history(h)),
            "input": h, "history": h, "op_index": i, "clause": clause, "replay": "history", "writer": op.get("kind")}
@@ -67,12 +67,24 @@ def run(ctx):
     histories = [G.history_c09(rng) for _ in range(n)]
     # regression corpus first: the three defects this property exhibited on the pinned tree
     histories = CORPUS + histories
+    # pristine twins: the last write of a history, alone in a fresh process ("after other sets were written" /
+    # "in another process" must give the same bytes as that)
+    twins = {}
+    for hi in range(len(histories)):
+        ws = [op for op in histories[hi] if op["op"] == "write"]
+        if ws and any(ws[0].get(k) != ws[-1].get(k) for k in ("kind", "set", "wopts", "kw")):
+            # the last write's (writer, options, set) was first written after something else had been written
+            t = G.pristine_twin(histories[hi])
+            if t is not None:
+                twins[hi] = len(histories)
+                histories.append(t)
     n = len(histories)
     r = C.check_batch(histories, ctx.repo, plan_seeds(n, ctx.thorough), "C09", ("write",))
     res = {"evaluations": 0, "nontrivial": set(), "violations": [], "disagreements": [], "streams": 3,
            "distribution": {}, "notes": []}
     dist = res["distribution"]
     kinds, errs, reuse, nops = {}, {}, 0, 0
+    hi_of = {id(h): k for k, h in enumerate(histories)}
     for h, obs in zip(histories, r["results"]):
         res["evaluations"] += 1
         seen_w = set()
@@ -88,22 +100,32 @@ def run(ctx):
                 seen_w.add(op["w"])
         if reused:
             reuse += 1
+        if reused or hi_of[id(h)] in twins:
             res["nontrivial"].add(json.dumps(h, sort_keys=True))
     dist.update({"histories": n, "operations": nops, "writes_by_writer": kinds, "writes_that_raised": errs,
                  "histories_with_a_reused_writer_object": reuse,
                  "hash_seeds": {str(s): len(v) for s, v in plan_seeds(n, ctx.thorough).items()},
                  "pristine_reads": len(r["pristine"])})
+    pairs = [(histories[ti], r["results"][ti], histories[hi], r["results"][hi]) for hi, ti in twins.items()]
+    dist["pristine_twin_pairs"] = len(pairs)
+    for (hi, ti), verdict in zip(twins.items(), C.evaluate_pairs(pairs, 901)):
+        for (i, clause) in verdict:
+            if clause == 2:
+                r["violations"].append((hi, i, 2, {"twin": histories[ti]}))
+                break
     seen = set()
     for (hi, i, clause, extra) in r["violations"]:
         if clause in (1, 2, 7) and (clause, histories[hi][i].get("kind")) not in seen and len(seen) < 6:
             seen.add((clause, histories[hi][i].get("kind")))
             h = histories[hi]
-            try:
-                h = C.shrink(h, ctx.repo, "C09", clause, extra.get("hashseed"), budget=12)
-                i = min(i, len(h) - 1)
-            except Exception:  # noqa
-                pass
+            if "twin" not in extra:
+                try:
+                    h = C.shrink(h, ctx.repo, "C09", clause, extra.get("hashseed"), budget=12)
+                    i = min(i, len(h) - 1)
+                except Exception:  # noqa
+                    pass
             res["violations"].append(violation_record(h, i, clause, extra))
+    C.detail_summary(histories, r["details"], res)
     for (hi, d) in r["disagreements"][:40]:
         res["disagreements"].append({"history": histories[hi], "op_index": d["i"], "what": d["what"],
                                      "model": d.get("model"), "impl": d.get("impl")})
@@ -133,8 +155,11 @@ def run(ctx):
                    "style nodes, concurrent captions, empty languages; or read from SRT/WebVTT/MicroDVD/DFXP/SAMI/SCC "
                    "documents), 3-8 write() calls of the 8 writers x relativize/fit_to_screen/video size/inline "
                    "positioning/default_positioning/force/lang, the focus (writer, options, set) written by the same "
-                   "object again, by a fresh object and after other writes, edits in between. Non-trivial = a history "
-                   "in which some writer object is used more than once; distinct histories counted.")
+                   "object again, by a fresh object and after other writes, edits in between; shapes: rich-then-plain "
+                   "set on one object, A by one object then B by a fresh one; a history whose last write was first "
+                   "made after other writes has a pristine twin (creation ops + that write alone in a fresh process) "
+                   "and the oracle is evaluated on twin;history. Non-trivial = a history in which some writer object "
+                   "is used more than once or that has a pristine twin; distinct histories counted.")
     res["samples"] = [C.describe_history(h) for h in histories[len(CORPUS):len(CORPUS) + 5]]
     res["clauses"] = {
         "theorem": ["a write (any of the 8 writer models, any options, any instance state, also on its error exits) "
@@ -156,6 +181,10 @@ def run(ctx):
 
 def replay(ctx, rec):
     h = rec["history"]
+    if rec.get("twin"):
+        res = C.run_jobs([({"mode": "histories", "histories": [rec["twin"], h]}, 0)], ctx.repo)[0]
+        verdict = C.evaluate_pairs([(rec["twin"], res[0], h, res[1])], 901)[0]
+        return any(c == 2 for (_, c) in verdict), [(i, C.CLAUSES[c]) for (i, c) in verdict]
     ok, r = C.still_fails(h, ctx.repo, "C09", rec["clause"], rec.get("hashseed"))
     return ok, [(i, C.CLAUSES[c]) for (_, i, c, _) in r["violations"]]
 
